@@ -1066,7 +1066,7 @@ L2_CFG = {
   Kinds = {"assoc", "estbuf", "del", "kbuf", "mod"}
 """,
     "Perio": """  Periods = {10, 20}
-  Kinds = {"assoc", "estper", "del", "tick", "rmurr", "krep"}
+  Kinds = {"assoc", "estper", "del", "tick", "rmurr", "krep", "addurr"}
 """,
 }
 PKT_SCALE = 256     # one model packet = 256 real packets; model QCap 2 = 512 real
@@ -1547,6 +1547,29 @@ def run_alive(binary, scripts, k0, name, test, nproc=8):
     return viols, nl, nt
 
 
+def c07_jumbo(sid, rng):
+    """valid datagrams at the size limits: a session with more than a thousand URRs, a notification that reports on all of them
+    (the Session Report Request does not fit into a UDP datagram), responses for the sequence numbers it may have used, then
+    everything the session has is queried and removed; the UPF has to stay up and serving"""
+    k = rng.choice([700, 1000, 1300])
+    vals = {x: "" for x in ("tv", "uv", "dv", "tp", "up", "dp", "st", "et", "du")}
+    E = [gen_l1.ev("init", maxrt=1),
+         gen_l1.ev("assoc", peer="p1", seq=1, node="n1"),
+         gen_l1.ev("assoc", peer="p2", seq=1, node="n2"),
+         gen_l1.ev("est", peer="p2", seq=2, node="n2", cp="9", ops=[gen_l1.op("create", "far", 1)]),
+         gen_l1.ev("est", peer="p1", seq=2, node="n1", cp="7", ops=[gen_l1.op("create", "urr", u, meth=rng.choice([2, 3])) for u in range(1, k + 1)]),
+         gen_l1.ev("report", sref=2, reports=[{"k": "usar", "urr": u, "trig": 2, "pdr": 0, "action": 0, "pkt": "", "tok": 0, "vals": dict(vals)} for u in range(1, k + 1)])]
+    for q in (0, 1, 2):
+        E.append(gen_l1.ev("rptrsp", peer="p1", seq=q, seid="7"))
+    E.append(gen_l1.ev("hb", peer="p1", seq=3))
+    E.append(gen_l1.ev("mod", peer="p1", seq=4, sref=2, ops=[gen_l1.op("query", "urr", u) for u in range(1, k + 1)]))
+    E.append(gen_l1.ev("rptrsp", peer="p1", seq=0, seid="0"))
+    E.append(gen_l1.ev("del", peer="p1", seq=5, sref=2))
+    E.append(gen_l1.ev("hb", peer="p2", seq=3))
+    E.append(gen_l1.ev("mod", peer="p2", seq=4, sref=1, ops=[]))
+    return {"id": sid, "events": E}
+
+
 def check_c07(pid, replay=None):
     import random
     t0 = time.time()
@@ -1578,7 +1601,8 @@ def check_c07(pid, replay=None):
         scripts.append(c07_script("gb-%d" % i, h, nacc, rng, nmut))
     log("MC Lifecycle: %d states, %d edges; %d prefixes x %d mutated datagrams each, on the model data plane (L1) and on the gtp5g driver over the simulated kernel (L2)" % (
         mc["distinct"], mc["edges_printed"], len(scripts), nmut))
-    v1, l1, t1 = run_alive(binary, scripts, kbase(pid), "c07-l1", "TestVerifL1")
+    jumbo = [c07_jumbo("jumbo-%d" % j, rng) for j in range(4 if thorough else 2)]
+    v1, l1, t1 = run_alive(binary, scripts + jumbo, kbase(pid), "c07-l1", "TestVerifL1")
     half = scripts[: max(20, len(scripts) // 2)]
     v2, l2, t2 = run_alive(binary, half, kbase(pid), "c07-l2", "TestVerifL2")
     for v in v1:
